@@ -222,7 +222,54 @@ func setupC33(s *sut) {
 	c33Shared = append([]NID{nidOf(n33.ID()), nidOf(n32.ID())}, customRefs...)
 }
 
+// reference types added while the server runs (c33 mode): one per history, under a parent that earlier browses have
+// already asked the subtypes of
+var dynRefs []NID
+var dynShared []NID
+
+func mutateC33(r *rng.R, s *sut, hist int) {
+	ns := s.ns.ID()
+	d := server.NewNode(ua.NewStringNodeID(ns, fmt.Sprintf("DynRef%d", hist)),
+		map[ua.AttributeID]*ua.DataValue{ua.AttributeIDNodeClass: server.DataValueFromValue(uint32(ua.NodeClassReferenceType))}, nil, nil)
+	s.ns.AddNode(d)
+	var parent *server.Node
+	var pkey uint64
+	switch r.Intn(4) {
+	case 0:
+		parent, pkey = s.srv.Node(ua.NewNumericNodeID(0, 33)), 33
+	case 1:
+		parent, pkey = s.srv.Node(ua.NewNumericNodeID(0, 35)), 35
+	case 2:
+		parent, pkey = s.srv.Node(ua.NewNumericNodeID(0, 32)), 32
+	default:
+		parent, pkey = s.srv.Node(parseNID(customRefs[0])), customRefs[0].Key
+	}
+	parent.AddRef(d, server.RefType(45), true)
+	dn := nidOf(d.ID())
+	dynRefs = append(dynRefs, dn)
+	if len(dynRefs) > 3 {
+		dynRefs = dynRefs[len(dynRefs)-3:]
+	}
+	refParent[dn.Key] = pkey
+	dynShared = append(dynShared, dn)
+	pn := nidOf(parent.ID())
+	seen := false
+	for _, x := range append(append([]NID{}, c33Shared...), dynShared...) {
+		if x.Key == pn.Key {
+			seen = true
+		}
+	}
+	if !seen {
+		dynShared = append(dynShared, pn)
+	}
+}
+
 func refTypeNID(key uint64) NID {
+	for _, c := range dynRefs {
+		if c.Key == key {
+			return c
+		}
+	}
 	for _, c := range customRefs {
 		if c.Key == key {
 			return c
@@ -299,6 +346,10 @@ func genRefs(r *rng.R, nodes []NodeJ, ns uint16) []RefJ {
 			c := customRefs[r.Intn(len(customRefs))]
 			ti, tk, tstr = 0, c.Key, c.Str
 		}
+		if len(dynRefs) > 0 && r.Intn(3) == 0 {
+			c := dynRefs[len(dynRefs)-1-r.Intn(min(2, len(dynRefs)))] // mostly the reference type added last
+			ti, tk, tstr = 0, c.Key, c.Str
+		}
 		var tgt NID
 		if len(nodes) > 0 && r.Bool() {
 			tgt = nodes[r.Intn(len(nodes))].ID
@@ -333,6 +384,39 @@ func generate(r *rng.R, mode string, hist int, s *sut) History {
 	switch mode {
 	case "c31":
 		session(0, 0)
+		if hist%3 == 1 {
+			// data change notifications: a monitored node that may be written but not read must not tell its value
+			lv := func(n int64) DVal { return DVal{V: Vnt{K: "u8", N: n}} }
+			v := DVal{V: Vnt{K: "u32", N: 777}}
+			wo := NodeJ{ID: nidOf(ua.NewStringNodeID(ns, fmt.Sprintf("h%d_writeonly", hist))), Val: "dv", ValDV: &v}
+			switch r.Intn(4) {
+			case 0:
+				wo.Attrs = []AttrJ{{17, lv(2)}}
+			case 1:
+				wo.Attrs = []AttrJ{{18, lv(2)}}
+			case 2:
+				wo.Attrs = []AttrJ{{17, lv(2)}, {18, lv(2)}}
+			default:
+				wo.Attrs = []AttrJ{{17, lv(3)}, {18, lv(int64(r.Pick(2, 6, 0xfe)))}}
+			}
+			rw := NodeJ{ID: nidOf(ua.NewStringNodeID(ns, fmt.Sprintf("h%d_readwrite", hist))), Val: "dv", ValDV: &v}
+			if r.Bool() {
+				rw.Attrs = []AttrJ{{17, lv(3)}}
+			}
+			h.Nodes = append(h.Nodes, wo, rw)
+			add(Op{Kind: "createsub", Ch: 0, Tok: "s0", Interval: &IVal{K: "fin", U: 20000}})
+			add(Op{Kind: "createitems", Ch: 0, Tok: "s0", Sub: "sub0", Reads: []RV{{Node: wo.ID, Attr: 13}, {Node: rw.ID, Attr: 13}}})
+			add(Op{Kind: "publish", Ch: 0, Tok: "s0", Wait: true}) // the initial notifications
+			for k := r.Range(2, 4); k > 0; k-- {
+				tgt := wo.ID
+				if r.Intn(3) == 0 {
+					tgt = rw.ID
+				}
+				add(Op{Kind: "write", Ch: 0, Tok: "s0", Writes: []WV{{Node: tgt, Attr: 13, Val: DVal{V: Vnt{K: "u32", N: int64(1000 + r.Intn(1000))}}}}})
+				add(Op{Kind: "publish", Ch: 0, Tok: "s0", Wait: true})
+			}
+			add(Op{Kind: "deletesubs", Ch: 0, Tok: "s0", IDRefs: []string{"sub0"}})
+		}
 		for k := r.Range(10, 22); k > 0; k-- {
 			if r.Intn(5) < 3 {
 				add(Op{Kind: "read", Ch: 0, Tok: "s0", Reads: genReads(r, h.Nodes, ns, hist, 4)})
@@ -347,8 +431,15 @@ func generate(r *rng.R, mode string, hist int, s *sut) History {
 		}
 		add(Op{Kind: "read", Ch: 0, Tok: "s0", Reads: rvs})
 	case "c33":
-		h.Shared = c33Shared
+		h.Shared = append(append([]NID{}, c33Shared...), dynShared...)
 		session(0, 0)
+		// ask for the subtypes of the abstract reference types early: a server that remembers a closure must notice later additions
+		for _, t := range []uint32{33, 32, 31} {
+			add(Op{Kind: "browse", Ch: 0, Tok: "s0", Browses: []BDesc{{Node: nidOf(ua.NewNumericNodeID(0, 85)), Dir: 2, RefType: nidOf(ua.NewNumericNodeID(0, t)), Subtypes: true}}})
+		}
+		if len(customRefs) > 0 {
+			add(Op{Kind: "browse", Ch: 0, Tok: "s0", Browses: []BDesc{{Node: nidOf(ua.NewNumericNodeID(0, 85)), Dir: 2, RefType: customRefs[0], Subtypes: true}}})
+		}
 		for k := r.Range(6, 12); k > 0; k-- {
 			var bds []BDesc
 			for j := r.Range(1, 3); j > 0; j-- {
@@ -411,6 +502,21 @@ func generate(r *rng.R, mode string, hist int, s *sut) History {
 			add(Op{Kind: "read", Ch: 0, Tok: "s0", Reads: []RV{{Node: tgt, Attr: 13}}})
 			return h
 		}
+		if mode == "c29" && hist%6 == 1 && s.mapns != nil {
+			// a monitored key of the map namespace is written and read: every request must be answered
+			key := nidOf(ua.NewStringNodeID(s.mapns.ID(), []string{"alpha", "beta", "gamma"}[r.Intn(3)]))
+			other := nidOf(ua.NewStringNodeID(s.mapns.ID(), "gamma"))
+			session(0, 0)
+			add(Op{Kind: "write", Ch: 0, Tok: "s0", MapNS: true, Writes: []WV{{Node: other, Attr: 13, Val: DVal{V: Vnt{K: "i32", N: 5}}}}})
+			add(Op{Kind: "createsub", Ch: 0, Tok: "s0"})
+			add(Op{Kind: "createitems", Ch: 0, Tok: "s0", Sub: "sub0", Reads: []RV{{Node: key, Attr: uint32(r.Pick(13, 13, 14))}}})
+			for k := 0; k < 4; k++ {
+				add(Op{Kind: "write", Ch: 0, Tok: "s0", MapNS: true, Writes: []WV{{Node: key, Attr: 13, Val: DVal{V: Vnt{K: "i32", N: int64(k)}}}}})
+				add(Op{Kind: "read", Ch: 0, Tok: "s0", MapNS: true, Reads: []RV{{Node: key, Attr: 13}, {Node: key, Attr: 14}}})
+			}
+			add(Op{Kind: "deletesubs", Ch: 0, Tok: "s0", IDRefs: []string{"sub0"}})
+			return h
+		}
 		nsess := r.Range(2, 3)
 		adversarial := map[string]int{"c32": 6, "c35": 45, "c29": 25}[mode]
 		created := 0
@@ -418,7 +524,11 @@ func generate(r *rng.R, mode string, hist int, s *sut) History {
 			if mode == "c32" || r.Intn(4) > 0 {
 				add(Op{Kind: "createsession", Ch: k, Tok: "null"})
 				if mode == "c32" || r.Intn(4) > 0 {
-					add(Op{Kind: "activate", Ch: r.Pick(k, k, k, 0), Tok: fmt.Sprintf("s%d", created)})
+					op := Op{Kind: "activate", Ch: r.Pick(k, k, k, 0), Tok: fmt.Sprintf("s%d", created)}
+					if mode == "c35" {
+						op.Ident = []string{"", "", "username", "issued", "x509", "garbage", "none"}[r.Intn(7)]
+					}
+					add(op)
 				}
 				created++
 			}
@@ -497,8 +607,35 @@ func generate(r *rng.R, mode string, hist int, s *sut) History {
 				add(Op{Kind: "createsession", Ch: ch, Tok: tok})
 				created++
 			default:
-				add(Op{Kind: "activate", Ch: ch, Tok: tok})
+				op := Op{Kind: "activate", Ch: ch, Tok: tok}
+				if mode == "c35" {
+					op.Ident = []string{"", "username", "issued", "x509", "garbage", "none"}[r.Intn(6)]
+				}
+				add(op)
 			}
+		}
+		if mode == "c32" && created >= 2 {
+			// one request naming own and foreign subscriptions, in both orders (and the same for items)
+			a, b := 0, 1
+			if r.Bool() {
+				a, b = 1, 0
+			}
+			sa, sb := fmt.Sprintf("s%d", a), fmt.Sprintf("s%d", b)
+			x, y, z := "last2", "last1", "last0"
+			add(Op{Kind: "createsub", Ch: a, Tok: sa})
+			add(Op{Kind: "createsub", Ch: b, Tok: sb})
+			add(Op{Kind: "createsub", Ch: b, Tok: sb})
+			add(Op{Kind: "createitems", Ch: a, Tok: sa, Sub: x, Reads: genReads(r, h.Nodes, ns, hist, 2)})
+			add(Op{Kind: "createitems", Ch: b, Tok: sb, Sub: y, Reads: genReads(r, h.Nodes, ns, hist, 2)})
+			_ = nsub
+			if r.Bool() {
+				add(Op{Kind: "deletesubs", Ch: b, Tok: sb, IDRefs: []string{x, y}}) // foreign first
+				add(Op{Kind: "deletesubs", Ch: b, Tok: sb, IDRefs: []string{z, x}}) // own first
+			} else {
+				add(Op{Kind: "deletesubs", Ch: b, Tok: sb, IDRefs: []string{y, x, "n999999"}}) // own first
+				add(Op{Kind: "deletesubs", Ch: b, Tok: sb, IDRefs: []string{x, z}})
+			}
+			add(Op{Kind: "read", Ch: a, Tok: sa, Reads: genReads(r, h.Nodes, ns, hist, 1)})
 		}
 	default:
 		panic("mode " + mode)
